@@ -131,7 +131,7 @@ func stripConv(v ssa.Value) ssa.Value {
 // the public functions of the root package that are forwards to an internal
 // package on the pinned tree (confirmed by reading): each must stay one
 var printEntryPoints = []string{"Sprint", "Sprintf", "Fprint", "Fprintf", "HelperForErrorf", "Sprintfn", "EscapeBytes",
-	"EscapeMarkers", "StartMarker", "EndMarker", "RedactedMarker", "Safe", "Unsafe", "MakeFormat", "RegisterSafeType", "RegisterRedactErrorFn"}
+	"Safe", "Unsafe", "MakeFormat", "RegisterSafeType", "RegisterRedactErrorFn"}
 
 // ruleC16a: the S/F entry points follow one protocol around doPrint*, and the
 // public façade forwards to them unchanged.
